@@ -408,6 +408,13 @@ class _FloatToFixedInstance(BlockRewriter):
         ctx = self.eval_info.by_expr.get(stmt.ctx)
         if not isinstance(ctx, Context):
             return Declined('the context is not statically known')
+        if self.alias is None:
+            # the whole-function precondition of `apply`, said of each block so
+            # that a listing does not count blocks no aim can rewrite
+            return Declined(
+                'the rewrite names a context constructor, and `fpy2` is not '
+                'in scope to name it by'
+            )
         return _describe(ctx)
 
     def _lower_round(
